@@ -17,7 +17,30 @@ class Sim:
         self.dims = {}; self.kinds = {}; self.nmpk = 1; self.nusk = 0; self.nenc = 0
 
 
+AST_SHARE = [0.0]     # probability that a generated policy is BUILT (prefix notation '@...') instead of written as a string
+
+
+def gen_ast_policy(rng, sim, maxdepth=2, p_bad=0.04):
+    """a policy assembled with the constructors: Broadcast may stand anywhere (below a conjunction, beside other clauses)"""
+    live = [(d, a) for d in sim.dims for a in sim.dims[d]]
+    def atom():
+        if not live or rng.random() < p_bad: d, a = rng.choice(DIMS), rng.choice(ATTR)
+        else: d, a = rng.choice(live)
+        return f'T,{d.encode().hex()},{a.encode().hex()}'
+    def gen(dep):
+        r = rng.random()
+        if rng.random() < 0.15: return 'B'
+        if dep <= 0 or r < 0.35: return atom()
+        return ('A,' if r < 0.65 else 'O,') + gen(dep - 1) + ',' + gen(dep - 1)
+    return '@' + gen(rng.randint(1, maxdepth + 1))
+
+
+def has_built_policy(script):
+    return any(t.startswith('x40') for l in script for t in l.split(' ')[1:])
+
+
 def gen_policy(rng, sim, maxdepth=2, p_star=0.08, p_bad=0.04):
+    if AST_SHARE[0] and rng.random() < AST_SHARE[0]: return gen_ast_policy(rng, sim, maxdepth, p_bad)
     live = [(d, a) for d in sim.dims for a in sim.dims[d]]
     def atom():
         if not live or rng.random() < p_bad: return rng.choice(DIMS) + '::' + rng.choice(ATTR)
@@ -97,7 +120,9 @@ def gen_history(rng, w=None, nsteps=(8, 45), final_pairs=True, names_extra=('e',
             out.append(f'RC {j} {rng.randrange(sim.nenc)}'); sim.nenc += 1
         elif op == 'decaps' and sim.nusk and sim.nenc: out.append(f'DE {rng.randrange(sim.nusk)} {rng.randrange(sim.nenc)}')
         elif op == 'ap': out.append(f'AP {x(gen_policy(rng, sim, 3, p_bad=0.1))}')
-        elif op == 'rfbad' and sim.nusk: out.append(f"RFBAD {rng.randrange(sim.nusk)} {rng.choice('01')} {rng.choice('01234')}")
+        elif op == 'rfbad' and sim.nusk:
+            if rng.random() < 0.25: out.append(f"RFX {rng.randrange(sim.nusk)} {rng.choice('01')}")
+            else: out.append(f"RFBAD {rng.randrange(sim.nusk)} {rng.choice('01')} {rng.choice('012345')}")
         elif op == 'hint' and dims:
             d = rng.choice(list(dims))
             if dims[d]: out.append(f"HINT {x(d)} {x(rng.choice(dims[d]))} {rng.choice('001')}")
@@ -127,7 +152,11 @@ def pretty(script):
 
 def run_both(histories, config='default', model_mode='fixed'):
     impl = vf.run_sharded(vf.harness_bin('kdriver', config), histories, timeout=1800)
-    model = vf.run_sharded(vf.OCAML + '/kdriver', histories, args=[model_mode], timeout=1800)
+    # histories with BUILT policies have no counterpart in the model (its operations take policy strings): reference semantics only
+    plain = [h for h in histories if not has_built_policy(h)]
+    mres = vf.run_sharded(vf.OCAML + '/kdriver', plain, args=[model_mode], timeout=1800) if plain else []
+    it = iter(mres)
+    model = [None if has_built_policy(h) else next(it) for h in histories]
     return impl, model
 
 
@@ -200,6 +229,7 @@ def compare(histories, impl, model):
     dis = []
     for h, script in enumerate(histories):
         bij = Bij(); ia, mb = impl[h], model[h]
+        if mb is None and has_built_policy(script): continue
         if ia is None or mb is None or len(ia) != len(script) or len(mb) != len(script):
             dis.append((h, min(len(ia or []), len(mb or [])), 'driver stopped', '', '', f'impl answered {len(ia or [])} model {len(mb or [])} of {len(script)} lines')); continue
         for ln, op in enumerate(script):
@@ -229,7 +259,7 @@ def generic_oracles(script, out):
         msk = parts[1] if len(parts) > 1 else None
         if ob == 'ERR' and last_msk is not None and msk != last_msk:
             v.append((ln, 'C10', 'master key changed by a failed call'))
-        if f[0] in ('RF', 'RFBAD') and ob == 'ERR' and len(parts) > 2 and nusk:
+        if f[0] in ('RF', 'RFBAD', 'RFX') and ob == 'ERR' and len(parts) > 2 and nusk:
             k = int(f[1]) % nusk
             if k in last_usk and last_usk[k] != parts[2]: v.append((ln, 'C10', 'user key changed by a failed refresh'))
         if f[0] == 'KG' and ob == 'OK': last_usk[nusk] = parts[2]; nusk += 1
